@@ -41,6 +41,8 @@ def add_pyvc(rep: core.Report, ctx: core.Ctx, pid: str, files):
     from vf.pyvc.verify import verify_contracts
     paths = [os.path.join(core.VERIF, "contracts", f) for f in files]
     obs, funcs = verify_contracts(paths, prop=pid, jobs=ctx.jobs)
+    if not funcs:
+        return []
     rep.obligations += obs
     for f in funcs:
         if f not in rep.functions_under_contract: rep.functions_under_contract.append(f)
@@ -51,3 +53,123 @@ def add_pyvc(rep: core.Report, ctx: core.Ctx, pid: str, files):
     for x in PYVC_TRUSTED:
         if x not in rep.trusted_base: rep.trusted_base.append(x)
     return obs
+
+
+# ---- one table for all properties ----------------------------------------------------------------
+ALL_CONTRACT_FILES = ["graph.py", "domains.py", "utils.py", "sum_product.py", "factorize.py", "formats.py"]
+
+
+def _semvc_laws(ctx, only=None):
+    from vf.semvc import laws
+    return laws.run(ctx, only=only)
+
+
+def _semvc(name):
+    def f(ctx):
+        import importlib
+        mod, fn = name.rsplit(".", 1)
+        return getattr(importlib.import_module(mod), fn)(ctx)
+    return f
+
+
+def _own(fn):
+    def f(ctx):
+        from vf.own import analysis
+        return getattr(analysis, fn)()
+    return f
+
+
+def _own_subset(fn, prefixes):
+    def f(ctx):
+        from vf.own import analysis
+        r = getattr(analysis, fn)()
+        r.obligations = [o for o in r.obligations if o.name.startswith(tuple(prefixes))]
+        return r
+    return f
+
+
+SPEC = {
+    "C01": dict(level="exploration", pyvc=True, extra=[],
+                text="Bounded stand-in only for the denotation: every grammar of the stated scope x 4 semirings x dtype x method against an "
+                     "independent evaluation of the definition. (Proof obligations on the dispatch of sum_products are listed when present.)"),
+    "C02": dict(level="other", pyvc=True, extra=[lambda ctx: _semvc_laws(ctx, only="star")],
+                text="Proved: control flow of fixed_point and newton (leaving the iteration without the stopping criterion => a warning was "
+                     "issued; bounded number of evaluations of F), star(x) is the least solution of y = 1 + x*y in each semiring. Bounded: "
+                     "values against an independent Kleene iteration. Convergence rates / 'error vanishes as tol does' are not decidable here."),
+    "C03": dict(level="exploration", pyvc=True, extra=[], text="Bounded stand-in: gradients against exact polynomial derivatives / central differences."),
+    "C04": dict(level="exploration", pyvc=True, extra=[], text="Bounded stand-in: viterbi derivations checked for well-formedness and optimality against brute force."),
+    "C05": dict(level="other", pyvc=True, extra=[],
+                text="Proved: the method argument reaches tree_decomposition through factorize_fgg / factorize_hrg and selects the algorithm; "
+                     "unique_label_name returns a name not in the given label set. Bounded: inlining isomorphism, widths, sum-product equality."),
+    "C06": dict(level="other", pyvc=False, extra=[_semvc("vf.semvc.pt_ops.run")],
+                text="Proved: every elementwise operation treats `default` exactly as torch treats a physical element (scalar semantics, incl. "
+                     "+-inf, Python-level raises). Bounded: denotation of all operations against dense torch on enumerated typed patterns; the "
+                     "representation invariant is checked on every construction by the FGGS_VERIF hook."),
+    "C07": dict(level="other", pyvc=False, extra=[_semvc("vf.semvc.homs.run_c07")],
+                text="Proved: the multiply/add callbacks of each semiring's einsum are the semiring's mul (0 x inf = 0). Bounded: denotation of "
+                     "patterned einsum against explicit nested loops."),
+    "C08": dict(level="other", pyvc=False, extra=[lambda ctx: _semvc_laws(ctx)],
+                text="Law clauses: proof obligations (semvc) on the scalar meaning of the real method bodies of fggs/semirings.py, over the "
+                     "reals extended with +-inf/NaN, discharged by z3 nonlinear arithmetic. Representation clause (Tensor vs PatternedTensor) "
+                     "and exact-IEEE laws: bounded stand-in, never counted as proved."),
+    "C09": dict(level="other", pyvc=False, extra=[_own_subset("inplace_ownership", ["semirings.", "multi.multi_solve", "multi.multi_mv", "indices.PatternedTensor.solve"])],
+                text="Proved (ownership analysis): the solvers write only storage they allocated (arguments are left unmodified). Bounded: "
+                     "least solutions against dense Kleene iteration."),
+    "C10": dict(level="other", pyvc=True, extra=[],
+                text="Proved: the graph helpers preserve the symmetric/irreflexive adjacency invariant with exact view postconditions, "
+                     "eliminate_node = remove v and make N(v) a clique, min_fill returns a permutation of the vertices and leaves its argument "
+                     "untouched, tree_decomposition dispatches on method. Bounded (exhaustive up to the stated vertex bound): validity and optimality."),
+    "C11": dict(level="other", pyvc=False, extra=[_own("assert_purity"), _semvc("vf.semvc.homs.run_c11")],
+                text="Proved: every assert / `if __debug__` block is a check only (python -O/-OO safe); log, support and max<=+ are semiring "
+                     "homomorphisms on scalars. Bounded: relational comparison across method x j_precompute x dtype x semiring x interpreter level."),
+    "C12": dict(level="other", pyvc=False, extra=[_own("no_id_ordering"), lambda ctx: _semvc_laws(ctx, only="ative")],
+                text="Proved: solver modules never order ids/labels/nodes/domain values (ordering operations are on numbers only); add and mul are "
+                     "associative and commutative over the reals. Bounded: relational comparison of presentations of the same grammar."),
+    "C13": dict(level="exploration", pyvc=True, extra=[], text="Bounded stand-in: equal/allclose against torch on dense tensors for all compatible pattern pairs."),
+    "C14": dict(level="other", pyvc=True, extra=[],
+                text="Proved: an attachment/external node number accepted by json_to_hrg is in range [0, len(nodes)); an out-of-range number "
+                     "surfaces only as ValueError. Bounded: round trips, weights specifications."),
+    "C15": dict(level="other", pyvc=True, extra=[],
+                text="Proved: Node/Edge construction (fresh ids, typedness), Graph.add_node / add_edge / remove_edge contracts that replace_edge "
+                     "is built from. Bounded: single replacement contract, all linearisations of derivations, derive()."),
+    "C16": dict(level="other", pyvc=True, extra=[],
+                text="Per-operation contracts (requires wf; ensures wf + exact update of the whole view + frame; raises iff; state unchanged on "
+                     "raise) on the real methods of fggs/fggs.py, VCs generated from the AST and discharged by z3 (unbounded: loops by invariant). "
+                     "HRG/FGG rule tables (lists of mutable rules) are outside the VC generator's value model: bounded breadth-first exploration of "
+                     "call histories, which also re-checks the Graph contracts natively."),
+    "C17": dict(level="other", pyvc=True, extra=[],
+                text="Proved: unique_label_name freshness (paired names collide with no label). Bounded: rule-level structure and derivation bijection."),
+    "C18": dict(level="other", pyvc=True, extra=[_own("inplace_ownership")],
+                text="Proved (ownership analysis over the real ASTs): every in-place write in the tensor modules reaches only storage allocated in "
+                     "the same call or owned by the receiver by contract; Graph.copy / copy_graph / min_fill frame conditions by pyvc. Bounded: "
+                     "snapshot comparison around queries."),
+    "C19": dict(level="exploration", pyvc=True, extra=[], text="Bounded stand-in, exhaustive over all digraphs up to 4 vertices and all insertion orders; nonterminal_graph against the definition."),
+    "C20": dict(level="other", pyvc=True, extra=[],
+                text="Contracts on fggs/domains.py (numberize/denumberize mutually inverse under the representation invariant established by "
+                     "__init__, contains, equality by content) and on add_domain / add_factor / shape (raises iff, unchanged on raise), discharged "
+                     "by z3. FiniteFactor (torch) is outside reach: bounded stand-in."),
+}
+
+
+def make(pid):
+    spec = SPEC[pid]
+
+    def run_obligations(ctx):
+        rep = core.Report(property_id=pid, level=spec["level"])
+        if spec["pyvc"]:
+            add_pyvc(rep, ctx, pid, ALL_CONTRACT_FILES)
+        for f in spec["extra"]:
+            sub = f(ctx)
+            rep.add(sub)
+        return rep
+
+    def run(ctx):
+        rep = run_obligations(ctx)
+        rep.explanation = spec["text"]
+        add_bounded(rep, ctx, pid)
+        # level: obligations + bounded -> as declared; only bounded -> exploration
+        if not rep.obligations:
+            rep.level = "exploration"
+        return rep
+
+    return run, run_obligations
